@@ -47,6 +47,8 @@ pub struct OpW {
     pub iter_advance: u32,
     pub insert_batch: u32,
     pub debug_fmt: u32,
+    pub handle: u32,
+    pub hot_gets: u32,
 }
 
 impl Default for OpW {
@@ -71,6 +73,8 @@ impl Default for OpW {
             iter_advance: 0,
             insert_batch: 0,
             debug_fmt: 1,
+            handle: 2,
+            hot_gets: 0,
         }
     }
 }
@@ -95,6 +99,8 @@ pub struct Profile {
     pub huge: bool,
     /// in such a case, occasionally end with a burst of 140 000 maximal-weight inserts
     pub huge_burst: bool,
+    /// bursts are get-bursts only (many distinct keys looked up once: drives the sketch to an aging step)
+    pub burst_gets_only: bool,
 }
 
 pub fn profile_for(prop: &str, thorough: bool) -> Profile {
@@ -113,6 +119,7 @@ pub fn profile_for(prop: &str, thorough: bool) -> Profile {
         drop_unsynced: false,
         huge: matches!(prop, "C03" | "C04" | "C08" | "C10" | "C12" | "C13"),
         huge_burst: prop == "C08",
+        burst_gets_only: matches!(prop, "C12" | "C13" | "C14"),
     };
     match prop {
         "C01" => {
@@ -186,12 +193,16 @@ pub fn profile_for(prop: &str, thorough: bool) -> Profile {
             p.w.enter_beyond = 7;
         }
         "C11" => {
+            p.w.handle = 8;
             p.sync_every_op_some = true;
             p.drop_unsynced = true;
             p.w.invalidate = 10;
             p.w.enter_beyond = 7;
         }
         "C12" | "C13" => {
+            p.w.burst = 2;
+            p.burst_sizes = vec![700, 1400];
+            p.w.hot_gets = 1;
             p.w.insert_batch = 8;
             p.cap = CapMode::Bounded;
             p.sync_every_op = true;
@@ -207,6 +218,9 @@ pub fn profile_for(prop: &str, thorough: bool) -> Profile {
             p.max_ops = if thorough { 200 } else { 70 };
         }
         "C14" => {
+            p.w.burst = 3;
+            p.burst_sizes = vec![700, 1400];
+            p.w.hot_gets = 2;
             p.w.get = 40;
             p.w.warm_insert = 8;
         }
@@ -273,6 +287,9 @@ pub enum RawOp {
     /// concurrent cache: leave the periodic-sync window, queue 2-4 inserts, then sync()
     InsertBatch { items: [(u16, u8); 4], n: u8 },
     DebugFmt,
+    Handle { sel: u8 },
+    /// many gets of one key in a row (enough of them cross an aging step of the sketch)
+    HotGets { k: u16, n: u8 },
 }
 
 const DURS: [Option<u64>; 9] = [
@@ -348,6 +365,8 @@ fn raw_op(w: &OpW) -> BoxedStrategy<RawOp> {
     add(w.warm_insert, (any::<u16>(), any::<u8>(), any::<u8>()).prop_map(|(k, w, n)| RawOp::WarmInsert { k, w, n }).boxed());
     add(w.counters, Just(RawOp::Counters).boxed());
     add(w.debug_fmt, Just(RawOp::DebugFmt).boxed());
+    add(w.handle, any::<u8>().prop_map(|sel| RawOp::Handle { sel }).boxed());
+    add(w.hot_gets, (any::<u16>(), any::<u8>()).prop_map(|(k, n)| RawOp::HotGets { k, n }).boxed());
     add(w.insert_batch, (any::<[(u16, u8); 4]>(), any::<u8>()).prop_map(|(items, n)| RawOp::InsertBatch { items, n }).boxed());
     add(w.iter_advance, (any::<u8>(), any::<u8>()).prop_map(|(after, sel)| RawOp::IterAdvance { after, sel }).boxed());
     add(w.fresh_lookup, (any::<u16>(), any::<bool>()).prop_map(|(sel, contains)| RawOp::FreshLookup { sel, contains }).boxed());
@@ -505,7 +524,12 @@ pub fn build_case(p: &Profile, rc: RawCfg, raw_ops: Vec<RawOp>) -> Case {
                 if !p.burst_sizes.is_empty() {
                     let n = p.burst_sizes[idx(n as u32, 256, p.burst_sizes.len() as u32) as usize];
                     let wsel = idx(w as u32, 256, 6);
-                    if wsel == 5 && kind == Kind::Sync {
+                    if p.burst_gets_only {
+                        push(&mut ops, Op::Burst { n, w: 1, gets: true });
+                        if every {
+                            ops.push(Op::Sync);
+                        }
+                    } else if wsel == 5 && kind == Kind::Sync {
                         // a run of invalidations of present keys, no sync in between
                         push(&mut ops, Op::BurstInvalidate { n })
                     } else {
@@ -524,6 +548,18 @@ pub fn build_case(p: &Profile, rc: RawCfg, raw_ops: Vec<RawOp>) -> Case {
             }
             RawOp::Counters => push(&mut ops, Op::Counters),
             RawOp::DebugFmt => push(&mut ops, Op::DebugFmt),
+            RawOp::Handle { sel } => {
+                if kind == Kind::Sync {
+                    push(&mut ops, Op::Handle { sel })
+                }
+            }
+            RawOp::HotGets { k, n } => {
+                let k = kmap(k);
+                let n = [40usize, 300, 1400][idx(n as u32, 256, 3) as usize];
+                for _ in 0..n {
+                    push(&mut ops, Op::Get { k });
+                }
+            }
             RawOp::InsertBatch { items, n } => {
                 if kind == Kind::Sync {
                     ops.push(Op::EnterBeyond);
